@@ -1008,6 +1008,10 @@ class Executor:
             outs.append(Outcome(st.fork(None if c is True else c), v))
         return outs
 
+    def _fork_bool(self, st, b):
+        """a boolean result is kept symbolic (switchInt forks later)"""
+        return [Outcome(st, b)]
+
     def summary(self, st, ty, trait, meth, args, subst, raw):
         th = self.th
         th.cur_pc = tuple(st.pc)
@@ -1069,6 +1073,10 @@ class Executor:
         if trait == "Clone" and meth == "clone":
             used("Clone::clone (Copy types)")
             return [Outcome(st, deref(args[0]))]
+        # ---- core::iter::once(x)
+        if meth == "once" and len(args) == 1 and ("iter" in raw):
+            used("core::iter::once")
+            return [Outcome(st, GIter([(True, args[0])], by_ref=False))]
         # ---- slices / iterators
         if meth == "iter" and ty is not None and ("[" in ty or "impl [" in raw):
             used("core::slice::iter")
@@ -1095,11 +1103,50 @@ class Executor:
             if meth in ("is_none", "is_some"):
                 used("Option::" + meth)
                 return [Outcome(st, (v.variant == "None") == (meth == "is_none"))]
-            if meth == "unwrap":
-                used("Option::unwrap")
+            if meth in ("unwrap", "expect"):
+                used("Option::" + meth)
                 if v.variant == "None":
-                    return [Outcome(st, None, "called `Option::unwrap()` on a `None` value")]
+                    return [Outcome(st, None, "called `Option::%s()` on a `None` value" % meth)]
                 return [Outcome(st, v.payload[0])]
+            if meth == "unwrap_or":
+                used("Option::unwrap_or")
+                return [Outcome(st, v.payload[0] if v.variant == "Some" else args[1])]
+            if meth in ("copied", "cloned"):
+                used("Option::" + meth)
+                return [Outcome(st, v if v.variant == "None" else Enum(v.ty, "Some", [deref(v.payload[0])]))]
+            if meth == "or":
+                used("Option::or")
+                return [Outcome(st, v if v.variant == "Some" else deref(args[1]))]
+            if meth in ("unwrap_or_else", "or_else"):
+                used("Option::" + meth)
+                if v.variant == "Some":
+                    return [Outcome(st, v.payload[0] if meth == "unwrap_or_else" else v)]
+                return self.call_closure(st, args[1], [])
+            if meth in ("map", "and_then", "filter", "is_some_and"):
+                used("Option::" + meth)
+                if v.variant == "None":
+                    return [Outcome(st, False if meth == "is_some_and" else v)]
+                x = v.payload[0]
+                outs = self.call_closure(st, args[1], [self.temp_ref(st, x) if meth == "filter" else x])
+                res = []
+                for o in outs:
+                    if o.panic:
+                        res.append(o)
+                    elif meth == "map":
+                        res.append(Outcome(o.state, Enum("Option<?>", "Some", [o.value])))
+                    elif meth in ("and_then", "is_some_and"):
+                        res.append(o)
+                    else:       # filter
+                        if o.value is True:
+                            res.append(Outcome(o.state, v))
+                        elif o.value is False:
+                            res.append(Outcome(o.state, Enum(v.ty, "None")))
+                        else:
+                            if self.feasible(o.state, o.value):
+                                res.append(Outcome(o.state.fork(o.value), v))
+                            if self.feasible(o.state, z3.Not(o.value)):
+                                res.append(Outcome(o.state.fork(z3.Not(o.value)), Enum(v.ty, "None")))
+                return res
         # ---- bool::then
         if head == "bool" and meth == "then":
             used("bool::then")
@@ -1243,6 +1290,73 @@ class Executor:
             for s in cur:
                 results.append(Outcome(s, Enum(opt, "None")))
             return results
+        if meth == "rev":
+            used("Iterator::rev")
+            return [Outcome(st, GIter(tuple(reversed(it.items)), by_ref=it.by_ref))]
+        if meth == "chain":
+            used("Iterator::chain")
+            other = args[1] if not isinstance(args[1], Ref) else self.load(st, args[1])
+            if isinstance(other, GIter) and other.by_ref == it.by_ref:
+                return [Outcome(st, GIter(it.items + other.items, by_ref=it.by_ref))]
+        if meth == "enumerate":
+            used("Iterator::enumerate")
+            if all(g is True for g, _ in it.items):
+                return [Outcome(st, GIter([(True, Tup([Int(k, "usize"), (self.temp_ref(st, x) if it.by_ref else x)])) for k, (_, x) in enumerate(it.items)], by_ref=False))]
+        if meth == "map":
+            used("Iterator::map")
+            items = []
+            cur = st
+            for g, x in it.items:
+                outs = self.call_closure(cur, args[1], [self.temp_ref(cur, x) if it.by_ref else x])
+                if len(outs) != 1 or outs[0].panic:
+                    raise Unsupported("Iterator::map with a forking or panicking closure")
+                cur = outs[0].state
+                items.append((g, outs[0].value))
+            return [Outcome(cur, GIter(items, by_ref=False))]
+        if meth in ("take_while", "skip_while"):
+            used("Iterator::" + meth)
+            clo = args[1]
+            items = []
+            prefix = True            # condition: every earlier item satisfied the predicate
+            for g, x in it.items:
+                p = self.call_bool(st, clo, x, it.by_ref)
+                if meth == "take_while":
+                    g2 = b_and(g, prefix, p)
+                    prefix = b_and(prefix, b_or(b_not(g), p))
+                else:
+                    g2 = b_and(g, b_not(b_and(prefix, p)))
+                    prefix = b_and(prefix, b_or(b_not(g), p))
+                if g2 is not False:
+                    items.append((g2, x))
+            return [Outcome(st, GIter(items, by_ref=it.by_ref))]
+        if meth in ("any", "all", "position"):
+            used("Iterator::" + meth)
+            clo = args[1]
+            conds = [(g, self.call_bool(st, clo, x, False) if meth != "position" else self.call_bool(st, clo, x, False)) for g, x in it.items] if False else None
+            vals = []
+            for g, x in it.items:
+                # any/all/position take the item by value (FnMut(Self::Item))
+                s2 = st.fork()
+                n0 = len(s2.pc)
+                outs = self.call_closure(s2, clo, [self.temp_ref(s2, x) if it.by_ref else x])
+                if any(o.panic for o in outs):
+                    raise Unsupported("panic inside iterator predicate")
+                pv = outs[0].value if len(outs) == 1 else b_or(*[b_and(*(list(o.pc[n0:]) + [o.value])) for o in outs])
+                vals.append((g, pv))
+            if meth == "any":
+                return self._fork_bool(st, b_or(*[b_and(g, p) for g, p in vals]))
+            if meth == "all":
+                return self._fork_bool(st, b_and(*[b_or(b_not(g), p) for g, p in vals]))
+            if all(g is True for g, _ in vals):
+                cases, neg = [], []
+                for k, (g, p) in enumerate(vals):
+                    cases.append((b_and(*(neg + [p])), Enum("Option<usize>", "Some", [Int(k, "usize")])))
+                    if p is True:
+                        break
+                    neg.append(b_not(p))
+                else:
+                    cases.append((b_and(*neg), Enum("Option<usize>", "None")))
+                return self._fork_cases(st, cases)
         if meth == "count":
             used("Iterator::count")
             if all(g is True for g, _ in it.items):
